@@ -62,6 +62,7 @@ Local Open Scope N_scope.
 Definition I := VInt.
 Definition S_ := VStr.
 Definition B_ := VBool.
+Definition F_ := VFloat.
 Definition T_ := PText.
 Definition mk (be : backend) (kw : dict) (args : list (str * str)) (br : str)
               (n d c r : str) (rs : dict) (cp rp : list piece) : case :=
@@ -126,6 +127,8 @@ def g_val(v):
     if isinstance(v, int):
         assert v >= 0
         return "(I %d)" % v
+    if isinstance(v, float) and v.is_integer() and 0 <= v < 1e16:
+        return "(F_ %d)" % int(v)           # an integral float: what YAML gives for 30.0 / 6.0e+1
     if isinstance(v, str):
         return "(S_ %s)" % gs(v)
     raise ValueError("value outside the model: %r" % (v,))
@@ -592,7 +595,10 @@ def gen_res(rng, exotic=False):
         elif k == "gpus":
             v = rng.choice([0, 1, 2, "1", "4"])
         elif k == "walltime":
-            v = rng.choice(["00:10:00", "01:30:00", "10", 30, "2:00", "00:00:30", "1:59:59", 0, "12:00:01"])
+            # every form the schema admits: integer, integral float (30.0, 6.0e+1), digit text, colon forms,
+            # day forms, "inf", 0
+            v = rng.choice(["00:10:00", "01:30:00", "10", 30, "2:00", "00:00:30", "1:59:59", 0, "12:00:01",
+                            30.0, 6.0e+1, 90.0, 0.0, 1.0, "90", "05:30", "1-02:03:04", "2-00", "inf", "0", "120.0"])
         elif k == "reservation":
             v = rng.choice(["myres", "dat_2"])
         elif k == "exclusive":
@@ -881,6 +887,15 @@ def small_scope(tier):
                                       "restart": "".join(piece_text(p) for p in restart_ps), "res": res,
                                       "cmd_pieces": [list(p) for p in ps], "restart_pieces": [list(p) for p in restart_ps],
                                       "stream": "small"})
+    # every back-end x every form of walltime the schema admits
+    for be in ("slurm", "lsf", "flux", "local"):
+        for w in (30, 30.0, 6.0e+1, 0.0, 0, "30", "00:30:00", "30:00", "1-00:00:00", "inf", "30.0", True):
+            b = {"type": be} if be == "local" else {"type": be, "host": "h", "bank": "b", "queue": "q"}
+            ps = [["B"], ["T", " ./sim"]]
+            cases.append({"backend": be, "batch": b, "name": "s1", "desc": "d",
+                          "cmd": "".join(piece_text(p) for p in ps), "restart": "",
+                          "res": [["nodes", 1], ["procs", 4], ["walltime", w]],
+                          "cmd_pieces": [list(p) for p in ps], "restart_pieces": [], "stream": "small"})
     # every back-end x every kind of white space in the step name
     for be in ("slurm", "lsf", "flux", "local"):
         for name in WS_NAMES:
@@ -1201,7 +1216,8 @@ def run(ck):
         ck.cov["traces_validated_against_impl"] = len(cases)
         ck.cov["rule"] = (
             "corpus (%d) + exhaustive small scope (back-end x nodes/procs absent|int|str x 14 token layouts x "
-            "walltime shapes; back-end x step names with tab / VT / FF / FS / NBSP / NEL / U+2003 / U+2009 / U+2028 / "
+            "walltime shapes; back-end x walltime as int / integral float (30.0, 6.0e+1, 0.0) / digit text / "
+            "H:M:S / M:S / D-H:M:S / inf / float text / bool; back-end x step names with tab / VT / FF / FS / NBSP / NEL / U+2003 / U+2009 / U+2028 / "
             "U+200B) + seeded structured cases (any subset of the schema's resource keys, ints or decimal "
             "strings, every documented token form, 0-2 tokens per line, 1-3 lines, restart in 1/3) + seeded exotic "
             "cases (malformed tokens, odd values, unsafe characters, missing batch keys). Every case: real "
